@@ -2,7 +2,7 @@
 from engine.anl.casts import narrowing_casts, check_cast, const_value
 from engine.anl.locks import Held, lock_fields
 from engine.anl.origin import fmt, subterms, strip_bb
-from .common import S, co, calls_norm, is_call_term, var_name, render_path
+from .common import S, co, calls_norm, is_call_term, var_name, render_path, param
 
 EXPLANATION = (
     "Static decision of which scheme line shapes which write and that each record is one write: (R05.1) the preamble uses "
@@ -439,6 +439,27 @@ def r12_close_writes_nothing(ctx):
            "(85 bytes for Settings+SYN) instead of the size line 1 prescribes" % (ws[0].norm.split("::")[-1] if ws else "no shutdown found"))
 
 
+def r13_generator_answers_for_the_line_asked(ctx):
+    """what the size generator returns is decided by the scheme line of the packet index it was asked for and by nothing else:
+    every answer comes after the look-up of that line.  The cut-off (`stop`) belongs to the session's write path — the preamble
+    asks for line 0 without ever consulting it, so a `stop` shortcut inside the generator un-pads the preamble of a `stop=0` scheme"""
+    gen = ctx.body("R05.13", "padding::factory::PaddingFactory::generate_record_payload_sizes")
+    if gen is None:
+        return
+    cfg, o = ctx.cfg(gen), ctx.origins(gen)
+    look = [c for c in calls_norm(gen, "StringMap::get") if len(c.args) > 1]
+    if not ctx.floor("R05.13", "look-up of the scheme line in generate_record_payload_sizes", len(look), 1):
+        return
+    pk = param(gen, 1)
+    keyed = [c for c in look if any(var_name(s_) == pk for s_ in subterms(o.of_operand(c.args[1])))]
+    ctx.ob("R05.13", "generate_record_payload_sizes:looks-up-the-line-of-the-packet-asked-for", bool(keyed), look[0].site, "the line is looked up under the packet index given" if keyed else
+           "the scheme line is looked up under `%s`, not under the packet index the caller asked for" % fmt(o.of_operand(look[0].args[1]))[:80])
+    ok, p = cfg.must_pass([0], gen.return_blocks(), via_blocks=[c.bb for c in (keyed or look)])
+    ctx.ob("R05.13", "generate_record_payload_sizes:no-answer-before-the-look-up", ok, look[0].site, "every return follows the look-up of the line" if ok else
+           "the generator can answer without looking the line up (an early return on some other condition, e.g. the cut-off): the preamble's line 0 is asked for regardless of `stop`, so a scheme that pads the "
+           "preamble only (`stop=0`) announces and sends no padding0 at all", path=None if ok else render_path(gen, p)[:10])
+
+
 def run(ctx):
     from . import C09 as _C09s
     _C09s.r10_constructor_siblings(ctx)   # both roles start a session in the same state (counter 0, unbuffered, ids from 1): sibling cross-check of the constructors
@@ -454,6 +475,10 @@ def run(ctx):
     from . import C19
     C19.r2_new_sessions(ctx)   # the preamble (line 0) and the session (lines 1..) are given one and the same scheme object
     r10_scheme_parse(ctx)
+    r13_generator_answers_for_the_line_asked(ctx)
+    from . import C08 as _C08w, C11 as _C11w
+    _C08w.r8_buffered_sinks_are_flushed(ctx)   # a buffering wrapper left around the transport merges the records of a packet into one write: the sizes on the wire are no longer the drawn ones
+    _C11w.r5_writer_users(ctx)    # every byte that reaches the transport goes through the shaping write path: no second user of the writer
     r1_index_origins(ctx)
     r2_stop(ctx)
     r3_role(ctx)
